@@ -278,6 +278,9 @@ where
     //dbg!("handle_http_conn_once");
     let mut req = http_conn.read_request().await?;
     //dbg!(&req);
+    // The response from the first call of the handler, when it answered a request
+    // that has a pending body without asking for the body.
+    let mut opt_response = None;
     match &req.body {
         RequestBody::PendingKnown(len) if *len <= (small_body_len as u64) => {
             req.body = http_conn.read_body_to_vec().await?;
@@ -287,7 +290,8 @@ where
             let response = request_handler.clone()(req.clone()).await;
             //dbg!(&response);
             match response.kind {
-                ResponseKind::Normal => {}
+                // Use this response.  Do not call the handler again.
+                ResponseKind::Normal => opt_response = Some(response),
                 ResponseKind::DropConnection => return Err(HttpError::Disconnected),
                 ResponseKind::GetBodyAndReprocess(max_len) => {
                     let cache_dir = opt_cache_dir.ok_or(HttpError::CacheDirNotConfigured)?;
@@ -299,7 +303,10 @@ where
         _ => {}
     }
     //dbg!("request_handler");
-    let response = request_handler(req).await;
+    let response = match opt_response {
+        Some(response) => response,
+        None => request_handler(req).await,
+    };
     //dbg!(&response);
     match response.kind {
         ResponseKind::Normal => {}
